@@ -33,8 +33,6 @@ from tcpcl import contact, extend, formats, messages
 
 KNOWN_EXT_SIG = 'C07 / ext-item list with >= 2 items dissected as one Raw blob'
 MAGIC = b'dtn!'
-KIND_NAMES = {0: 'contact', 1: 'XFER_SEGMENT', 2: 'XFER_ACK', 3: 'XFER_REFUSE', 4: 'KEEPALIVE',
-              5: 'SESS_TERM', 6: 'REJECT', 7: 'SESS_INIT'}
 XFER_BOUND = {1: 8, 255: 10}
 SESS_BOUND = {255: 10}
 
@@ -433,9 +431,9 @@ def c_parts(parts):
 PRELUDE = r'''
 Definition o2l {A} (o : option A) : list A := match o with Some x => [x] | None => [] end.
 Definition cksum (b : bytes) : N := fold_left (fun acc x => (acc * 31 + x) mod 4294967291) b 0.
-Definition brief (b : bytes) : bytes := if (length b <=? 48)%nat then b else [N.of_nat (length b); cksum b].
+Definition brief (b : bytes) : bytes := if (List.length b <=? 48)%nat then b else [N.of_nat (List.length b); cksum b].
 Definition lb_eqb (a b : list bytes) : bool :=
-  (length a =? length b)%nat && forallb (fun p => bytes_eqb (fst p) (snd p)) (combine a b).
+  (List.length a =? List.length b)%nat && forallb (fun p => bytes_eqb (fst p) (snd p)) (combine a b).
 (* codec, everything printed: (wf, (encoding, parse of encoding ++ tail)) *)
 Definition codec_small (c : msg * bytes) :=
   let (m, tail) := c in
@@ -448,7 +446,7 @@ Definition codec_big (c : msg * (bytes * bytes)) :=
      | Some (m', r) => lb_eqb (render_msg m') (render_msg m) && bytes_eqb r tail
      | None => false end)).
 (* probe of arbitrary octets in the message phase *)
-Definition probe_msg (b : bytes) := o2l (match parse_msg b with Some (m, r) => Some (map brief (render_msg m), length r) | None => None end).
+Definition probe_msg (b : bytes) := o2l (match parse_msg b with Some (m, r) => Some (map brief (render_msg m), List.length r) | None => None end).
 (* item level: (RFC reading, dissector's view) of a region *)
 Definition exts_xfer (r : bytes) := (o2l (render_spec_exts xfer_ext_len r), render_view (scapy_view xfer_ext_len r)).
 Definition exts_sess (r : bytes) := (o2l (render_spec_exts sess_ext_len r), render_view (scapy_view sess_ext_len r)).
@@ -835,17 +833,14 @@ def run_codec(chk, run, corpus):
     for ent in corpus:
         cases.append(ent)
     per_kind = 30 if chk.quick() else 200
-    for kind in ['seg', 'ack', 'refuse', 'ka', 'term', 'rej', 'init']:
+    for kind in ['seg', 'ack', 'refuse', 'term', 'rej', 'init']:
         for idx in range(per_kind if kind in ('seg', 'init') else max(6, per_kind // 3)):
             (frame, items) = gen_frame(rng, kind, nitems=(idx % 4 if kind in ('seg', 'init') and idx < 12 else None))
             tail = rng.choice([b'', b'', b'\x04', b'\x05\x00', bytes([rng.randrange(256)])])
             cases.append((frame, items, tail))
-        if kind == 'ka':
-            break_ka = [c for c in cases if c[0][0] == 'ka']
-            for extra in break_ka[1:]:
-                cases.remove(extra)
-            cases.append((('ka',), [], b''))
-            cases.append((('ka',), [], b'\x04'))
+    cases.append((('ka',), [], b''))
+    cases.append((('ka',), [], b'\x04'))
+    cases.append((('ka',), [], b'\x00\x01'))
     for _ in range(3 if chk.quick() else 12):
         (frame, items) = gen_frame(rng, 'seg', big=True)
         cases.append((frame, items, b'\x04'))
@@ -977,7 +972,7 @@ def run_framing_short(chk, run):
     # every cut against the model's answer for the uncut stream (C07_split_invariance)
     for ((sidx, mask), (itrace, iframes, itail, raised)) in all_obs.items():
         (mframes, mtail) = uncut[sidx]
-        if raised or iframes != mframes or (itail is not None and brief(itail) != mtail) or (itrace and itrace[-1] != (len(mframes), len(streams[sidx][1]) - _consumed(streams[sidx][1], len(mframes)))):
+        if raised or iframes != mframes or (itail is not None and brief(itail) != mtail) or (itrace and itrace[-1] != (len(mframes), len(mtail))):
             run.note('framing-short', 'stream %s cut mask %d: final state differs from the model on the uncut stream (impl %s raised=%s)' % (
                 streams[sidx][1].hex(), mask, str(iframes)[:80], raised))
     chk.obligation('correspondence:framing-short', not run.mismatch.get('framing-short'), '; '.join(run.mismatch.get('framing-short', [])[:3]))
@@ -991,11 +986,6 @@ def _cum(lens):
         pos += size
         out.append(pos)
     return out
-
-
-def _consumed(stream, nframes):
-    (_f, ends, _s) = spec_stream(stream)
-    return ends[nframes - 1] if nframes and nframes <= len(ends) else 0
 
 
 def stream_parts(frames):
@@ -1093,11 +1083,11 @@ def run_framing_real(chk, run):
     return len(jobs)
 
 
-def chain_region(count):
-    ''' ``count`` type-1 items each of whose length field covers all that follows. '''
+def chain_region(count, typ=1, val=b'12345678'):
+    ''' ``count`` bound-type items each of whose length field covers all that follows. '''
     item = b''
     for _ in range(count):
-        item = struct.pack('!BHH', 0, 1, 8 + len(item)) + b'12345678' + item
+        item = struct.pack('!BHH', 0, typ, len(val) + len(item)) + val + item
     return item
 
 
@@ -1125,8 +1115,8 @@ def run_malformed(chk, run):
         ('bound-type-wrong-length', seg(ext(0, 255, b'abc'))), ('bound-type-wrong-length', init(ext(0, 255, b'abc'))),
         ('bound-type-wrong-length', seg(ext(0, 1, b'123456789') + ext(0, 255, b'0123456789'))),
         ('chained-items', seg(chain_region(3))), ('chained-items-100', seg(chain_region(100))),
-        ('chained-items-101', seg(chain_region(101))), ('chained-items-101', init(ext(0, 255, b'0123456789', 10 + 15 * 100) + b''.join(
-            ext(0, 255, b'0123456789', 10 + 15 * (99 - k)) for k in range(100)))),
+        ('chained-items-101', seg(chain_region(101))), ('chained-items-101', init(chain_region(101, 255, b'0123456789'))),
+        ('chained-items-100', init(chain_region(100, 255, b'0123456789'))), ('chained-items', seg(chain_region(5, 255, b'0123456789'))),
         ('ext-size-beyond-buffer', seg(b'')[:10] + struct.pack('!I', 50) + b'abc'),
         ('region-on-non-start', bytes([1, 1]) + struct.pack('!Q', 9) + struct.pack('!I', 0) + struct.pack('!Q', 0)),
         ('truncated', seg(ext(1, 1, b'12345678'))[:-1]), ('truncated', init(b'')[:-2]), ('truncated', b'\x05\x00'),
